@@ -126,6 +126,16 @@ def obligations(tier, seed):
         obs.append(dict(ob, name=ob["name"].replace("equiv/", "equiv-duplicate-entry/"), pre="pa0 == pa1"))
     for ob in [o for o in obs if o["name"].startswith("equiv/k=FS/") and "/rule=0/" in o["name"]]:
         obs.append(dict(ob, name=ob["name"].replace("equiv/", "equiv-backward/"), cube=dict(ob["cube"], backward=True)))
+    # a workplace with a facility (every container edits its own logs), the absence list given in either order
+    for ob in profiles.p_cost(thorough, timeout=900 if thorough else 150):
+        if "fac=1" not in ob["name"]:
+            continue
+        fixed = {"w0": (0, 2), "w1": (1, 2), "c0": (1, 2), "c1": (0, 1), "cf": (1, 2), "a0": (-1, -1), "fa0": (-1, -1), "pa0": (0, 4), "pa1": (0, 5)}
+        spec = dict(ob["cube"]["spec"])
+        spec["run"] = dict(spec["run"], max_time=14)
+        obs.append({"name": "equiv/workplace-any-order/" + ob["name"], "harness": "equiv", "cube": {"spec": spec},
+                    "params": [[n, fixed[n][0], fixed[n][1]] if n in fixed else [n, lo, hi] for n, lo, hi in ob["params"]], "pre": "pa0 != pa1",
+                    "timeout": 900 if thorough else 150, "engine": "zsym"})
     # the automatic task as a predecessor (its SS / FS successor must not start earlier because of an absence step)
     for k in (0, 1):
         for layout in ("private", "shared1"):
